@@ -31,7 +31,10 @@ FragDefs == {d \in [Frags -> [on : Types, inl : BOOLEAN, spreads : SUBSET Frags]
                \A f \in Frags : /\ (d[f].inl => Overlap(d[f].on, "A"))            \* its inline fragment is "... on A"
                                 /\ \A g \in d[f].spreads : g < f /\ Overlap(d[f].on, d[g].on)}
 \* an operation: a sequence of root fields, each [T: type of the field, fs: fragments spread directly in its selection set]
-Fields == [T : FieldTypes, fs : (SUBSET Frags) \ {{}}]
+\* wrap: the spreads sit inside an inline fragment on an interface the field's type implements ("... on I { ...F }" in a field of
+\* type A): the selection is then EVALUATED for I although the class is generated for A
+Fields == {x \in [T : FieldTypes, fs : (SUBSET Frags) \ {{}}, wrap : {"-", "I", "J"}] : x.wrap # "-" => x.T = "A"}
+EvalT(fld) == IF fld.wrap = "-" THEN fld.T ELSE fld.wrap
 OpsOf == UNION {[1..n -> Fields] : n \in 1..MaxFields}
 
 VARIABLES defs, ops,          \* the input (fixed by Init)
@@ -46,14 +49,17 @@ vars == <<defs, ops, nm, phase, done, unpacked, mixins, opBases, names, deps, or
 \* ---- result_types: mixin-or-unpack decision for one spread evaluated for a class of type T ----------
 Unpacks(d, T) == d.inl \/ d.on # T                                    \* _unpack_fragment(fragment_def, root_type_def)
 Applies(d, T) == d.on = T \/ (IsAbstract(d.on) /\ d.on \in Sup[T])    \* the elif in _resolve_selection_set
-RECURSIVE Resolve(_, _, _)
-Resolve(D, T, f) ==
+\* R = the type the selection set is evaluated for, C = the type the class is generated for (R # C only under a wrap)
+RECURSIVE Resolve2(_, _, _, _)
+Resolve2(D, R, C, f) ==
   LET d == D[f] IN
-  IF ~Unpacks(d, T) THEN [mix |-> {f}, unp |-> {}]
-  ELSE IF Applies(d, T)
-       THEN LET subs == {Resolve(D, T, g) : g \in d.spreads} IN
+  IF ~Unpacks(d, R) THEN [mix |-> {f}, unp |-> {}]
+  ELSE IF Applies(d, R) \/ d.on = C
+       THEN LET R2 == IF d.on = C THEN C ELSE R
+                subs == {Resolve2(D, R2, C, g) : g \in d.spreads} IN
             [mix |-> UNION {s.mix : s \in subs}, unp |-> {f} \cup UNION {s.unp : s \in subs}]
        ELSE [mix |-> {}, unp |-> {}]
+Resolve(D, T, f) == Resolve2(D, T, T, f)
 \* fragments reachable through spreads
 RECURSIVE Reach(_, _)
 Reach(D, f) == {f} \cup UNION {Reach(D, g) : g \in D[f].spreads}
@@ -65,7 +71,7 @@ ClassTypes(D, fld) ==
                      \cup (IF \E f \in fld.fs : \E g \in Reach(D, f) : D[g].inl THEN {"A"} ELSE {})
                 ELSE {})
 FieldRes(D, fld) == [ct \in ClassTypes(D, fld) |->
-                       LET rs == {Resolve(D, ct, f) : f \in fld.fs} IN
+                       LET rs == {(IF fld.wrap = "-" THEN Resolve(D, ct, f) ELSE Resolve2(D, fld.wrap, ct, f)) : f \in fld.fs} IN
                        [mix |-> UNION {r.mix : r \in rs}, unp |-> UNION {r.unp : r \in rs}]]
 
 \* ---- actions ------------------------------------------------------------------------------------------
@@ -73,7 +79,7 @@ Init ==
   /\ defs \in FragDefs
   /\ nm \in NamePerms
   /\ ops \in {o \in UNION {[1..n -> OpsOf] : n \in 1..MaxOps} :
-               \A k \in DOMAIN o : \A i \in DOMAIN o[k] : \A f \in o[k][i].fs : Overlap(o[k][i].T, defs[f].on)}
+               \A k \in DOMAIN o : \A i \in DOMAIN o[k] : \A f \in o[k][i].fs : Overlap(EvalT(o[k][i]), defs[f].on)}
   /\ phase = "adding" /\ done = 0 /\ unpacked = {} /\ mixins = {} /\ opBases = <<>>
   /\ names = {} /\ deps = <<>> /\ order = <<>> /\ module = {}
 
@@ -144,14 +150,14 @@ OrderIsModule == phase = "generated" => Range(order) = module /\ Len(order) = Ca
 DirectSpreadIsBase ==
   \A k \in DOMAIN opBases : \A i \in DOMAIN opBases[k] :
      LET fld == ops[k][i] IN
-     \A f \in fld.fs : (~defs[f].inl /\ defs[f].on = fld.T) => f \in opBases[k][i][fld.T]
+     \A f \in fld.fs : (~defs[f].inl /\ defs[f].on = EvalT(fld)) => f \in opBases[k][i][fld.T]
 \* the statement read strictly: the object returned for ANY runtime type is an instance of the fragment's class.
 \* As built, the extra class generated for a sub-type (because another fragment or an inline fragment narrows the
 \* position) unpacks the fragment instead of inheriting from it: deviation "subtype_class_unpacks" (known finding F24)
 StrictOrKnown ==
   \A k \in DOMAIN opBases : \A i \in DOMAIN opBases[k] :
      LET fld == ops[k][i] IN
-     \A f \in fld.fs : (~defs[f].inl /\ defs[f].on = fld.T) =>
+     \A f \in fld.fs : (~defs[f].inl /\ defs[f].on = EvalT(fld)) =>
         \A ct \in DOMAIN opBases[k][i] : f \in opBases[k][i][ct] \/ ct # fld.T
 \* C02 (f): the fragment definitions sent with operation k = exactly the fragments reachable from it by spreads.
 \* As fixed the closure is computed from the operation's text; the old computation used the accumulators
